@@ -236,18 +236,26 @@ abbrev Bals := AMap.T Wid Nat
 
 -- ------------------------------------------------------------------ unmined side (utxostore.go)
 
-/-- insertUnminedInputs: only the relevant inputs -/
+/-- insertUnminedInputs: every input of the tx, relevant or not (as Rollback does) -/
 def insertUnminedInputs (s : Store) (tr : TxRec) : Store :=
-  tr.relIn.foldl (fun s rel =>
-    match tr.tx.ins[rel.index]? with
-    | some i => { s with pendIns := putPendIn s.pendIns (i.tx, i.idx) tr.tx.id }
-    | none => s) s
+  tr.tx.ins.foldl (fun s i => { s with pendIns := putPendIn s.pendIns (i.tx, i.idx) tr.tx.id }) s
 
 /-- deleteUnminedInputs: every input of the tx -/
 def deleteUnminedInputs (s : Store) (tx : Tx) : Store :=
   tx.ins.foldl (fun s i =>
     match AMap.get s.pendIns (i.tx, i.idx) with
     | some (_ :: _) => { s with pendIns := AMap.erase s.pendIns (i.tx, i.idx) }
+    | _ => s) s
+
+/-- removeUnminedInputsOf (removeRawUnminedInputSpender per input): take the tx out of the spender list
+    of each of its inputs; the entry goes away with its last spender, other spenders keep theirs -/
+def removeUnminedInputsOf (s : Store) (tx : Tx) : Store :=
+  tx.ins.foldl (fun s i =>
+    match AMap.get s.pendIns (i.tx, i.idx) with
+    | some (x :: xs) =>
+      let rest := (x :: xs).filter (fun sp => sp ≠ tx.id)
+      if rest.isEmpty then { s with pendIns := AMap.erase s.pendIns (i.tx, i.idx) }
+      else { s with pendIns := AMap.put s.pendIns (i.tx, i.idx) rest }
     | _ => s) s
 
 def deleteUnminedCredits (s : Store) (tx : Tx) : Store :=
@@ -273,15 +281,15 @@ def addUnminedCredits (s : Store) (tr : TxRec) : M Store := do
   pure ((gameOuts tr).foldl (fun s rel =>
     { s with pendGame := AMap.put s.pendGame (rel.wallet, rel.out.cls.isBinding, tr.tx.id, rel.index) () }) s)
 
-/-- removeUnminedGameHistory: NOTE the code builds the key with vout left at 0 (history.vout is never
-    assigned in the loop), so only the entry of output 0 can be deleted. Modelled as written. -/
+/-- removeUnminedGameHistory: the unmined history record of every staking / binding output that pays an
+    owned address (after the fix: keyed by the output's own index) -/
 def removeUnminedGameHistory (own : Own) (s : Store) (tx : Tx) : Store :=
-  tx.outs.foldl (fun s o =>
+  foldIdx (fun s i o =>
     if o.cls.isStaking || o.cls.isBinding then
       match AMap.get own o.addr with
-      | some (w, _) => { s with pendGame := AMap.erase s.pendGame (w, o.cls.isBinding, tx.id, 0) }
+      | some (w, _) => { s with pendGame := AMap.erase s.pendGame (w, o.cls.isBinding, tx.id, i) }
       | none => s
-    else s) s
+    else s) tx.outs 0 s
 
 /-- removeConflict (txstore.go): remove a pending tx and, recursively, pending spenders of its outputs.
     `fuel` bounds the recursion depth (the pending set is a finite DAG; callers pass its size + 1;
@@ -296,7 +304,7 @@ def removeConflict (own : Own) : Nat → Store → Tx → Store
         | some sptx => removeConflict own fuel s sptx
         | none => s) s
       { s with pendCred := AMap.erase s.pendCred (tx.id, i) }) s
-    let s := deleteUnminedInputs s tx
+    let s := removeUnminedInputsOf s tx
     let s := removeUnminedGameHistory own s tx
     { s with pending := AMap.erase s.pending tx.id }
 
@@ -307,17 +315,15 @@ def purgeSpenders (own : Own) (s : Store) (op : TxId × Nat) : Store :=
     | some dtx => removeConflict own (s.pending.length + 1) s dtx
     | none => s) s
 
-/-- removeDoubleSpends: pending transactions spending an input of the mined tx are conflicts -/
+/-- removeDoubleSpends: pending transactions spending an input of the mined tx — any input, wallet
+    coin or not — are conflicts -/
 def removeDoubleSpends (own : Own) (s : Store) (tr : TxRec) : Store :=
   let fuel := s.pending.length + 1
-  let s := tr.relIn.foldl (fun s rel =>
-    match tr.tx.ins[rel.index]? with
-    | some i =>
-      ((AMap.get s.pendIns (i.tx, i.idx)).getD []).foldl (fun s ds =>
-        match AMap.get s.pending ds with
-        | some dtx => removeConflict own fuel s dtx
-        | none => s) s
-    | none => s) s
+  let s := tr.tx.ins.foldl (fun s i =>
+    ((AMap.get s.pendIns (i.tx, i.idx)).getD []).foldl (fun s ds =>
+      match AMap.get s.pending ds with
+      | some dtx => removeConflict own fuel s dtx
+      | none => s) s) s
   deleteUnminedInputs s tr.tx
 
 /-- insertMemPoolTx + AddCredits(block = nil) -/
@@ -531,6 +537,15 @@ def applyRelevant (c : Ctx) (s : Store) (ready : List Wid) (bm : BlockMeta) (rel
     let (s, bals) ← relevant.foldlM (fun sb tr => addRelevantMined c.p c.own sb.1 sb.2 tr bm) (s, bals)
     pure { s with balance := mergeBalances bals s.balance }
 
+/-- filterBlock: the non-coinbase transactions of the block that filterTx found irrelevant -/
+def unrelatedTxs (txs : List Tx) (relevant : List TxRec) : List Tx :=
+  txs.filter (fun t => !t.cb && !relevant.any (fun tr => tr.tx.id = t.id))
+
+/-- filterBlock → TxStore.RemoveUnminedConflicts: an irrelevant transaction of the block may still
+    double-spend a pending one (removeDoubleSpends on a record without relevance lists) -/
+def purgeUnrelated (own : Own) (s : Store) (txs : List Tx) : Store :=
+  txs.foldl (fun s t => removeDoubleSpends own s { tx := t }) s
+
 /-- filterBlock + onRelevantBlockConnected + SetSyncedTo; returns the confirmed relevant tx ids -/
 def filterBlock (c : Ctx) (s : Store) (ready : List Wid) (b : Block) : M (Store × List TxId) :=
   let bm : BlockMeta := ⟨b.height, b.id⟩
@@ -541,6 +556,7 @@ def filterBlock (c : Ctx) (s : Store) (ready : List Wid) (b : Block) : M (Store 
     else do
       let relevant ← if ready.isEmpty then pure [] else filterTxs c s ready b.id b.txs [] 0 []
       let s ← applyRelevant c s ready bm relevant
+      let s := purgeUnrelated c.own s (if ready.isEmpty then [] else unrelatedTxs b.txs relevant)
       let s2 ← putSyncedTo s bm
       pure (s2, relevant.map (·.tx.id))
 
